@@ -188,9 +188,9 @@ Theorem rep_reply_to_origin_queued :
      exists s', rep_step pf s (PSendDone p 0) = (s', [TranSend p m; Complete a E_OK None])).
 Proof. split; [exact rep_send_queued|exact rep_senddone_transmits_queued]. Qed.
 Print Assumptions rep_reply_to_origin_queued.
-Theorem rep_remembers_last_request : forall s k c a nb p m rest,
+Theorem rep_remembers_last_request : forall pf s k c a nb p m rest,
   rp_holding s = (p, m) :: rest ->
-  exists s', rep_ctx_recv s k c a nb = (s', [TranRecv p; Complete a E_OK (Some (rep_deliver m))]) /\
+  exists s', rep_ctx_recv pf s k c a nb = (s', [TranRecv p; Complete a E_OK (Some (rep_deliver m))]) /\
              exists c', rp_get s' k = Some c' /\ rc_pipe c' = p /\ rc_bt c' = pm_hdr m.
 Proof. exact rep_recv_records. Qed.
 Print Assumptions rep_remembers_last_request.
@@ -198,16 +198,16 @@ Theorem rep_send_before_recv_estate : forall pf s k c a nb m,
   rc_bt c = [] -> exists s', rep_ctx_send pf s k c a nb m = (s', [Complete a E_STATE None]).
 Proof. exact rep_send_without_request. Qed.
 Print Assumptions rep_send_before_recv_estate.
-Theorem rep_second_recv_estate : forall s k c a r,
-  rp_holding s = [] -> rc_raio c = Some r -> rep_ctx_recv s k c a false = (s, [Complete a E_STATE None]).
+Theorem rep_second_recv_estate : forall pf s k c a r,
+  rp_holding s = [] -> rc_raio c = Some r -> rep_ctx_recv pf s k c a false = (s, [Complete a E_STATE None]).
 Proof. exact rep_second_recv. Qed.
 Print Assumptions rep_second_recv_estate.
 
 (* REP non-blocking / poll *)
-Theorem rep_nonblocking_recv : forall s k c a,
-  (rp_holding s = [] -> rep_ctx_recv s k c a true = (s, [Complete a E_AGAIN None])) /\
+Theorem rep_nonblocking_recv : forall pf s k c a,
+  (rp_holding s = [] -> rep_ctx_recv pf s k c a true = (s, [Complete a E_AGAIN None])) /\
   (forall p m rest, rp_holding s = (p, m) :: rest ->
-     exists s', rep_ctx_recv s k c a true = (s', [TranRecv p; Complete a E_OK (Some (rep_deliver m))])).
+     exists s', rep_ctx_recv pf s k c a true = (s', [TranRecv p; Complete a E_OK (Some (rep_deliver m))])).
 Proof. exact rep_nb_recv. Qed.
 Print Assumptions rep_nonblocking_recv.
 Theorem rep_nb_send_keeps_slot_refuted :
@@ -226,10 +226,39 @@ Theorem rep_poll_mirror_refuted :
   snd (rep_step pf_pinned s (PRecv None 9%N true)) = [Complete 9%N E_AGAIN None].
 Proof. exact rep_poll_mirror_refuted_w. Qed.
 Print Assumptions rep_poll_mirror_refuted.
-Theorem rep_poll_mirror_repaired_partial :      (* PARTIAL: witness history only *)
-  let s := fst (rep_run pf_repaired rep_init w_rep_poll) in poll_r (rep_poll s) = Some false.
-Proof. exact rep_poll_mirror_repaired_w. Qed.
-Print Assumptions rep_poll_mirror_repaired_partial.
+(* repaired rep.c (rep0_pipe_close clears the descriptor; any values of the other
+   flags): in every state reached from rep_init the receive descriptor is raised
+   exactly when a non-blocking receive -- on any context -- does not return
+   NNG_EAGAIN, and then the receive delivers a request *)
+Theorem rep_recv_poll_mirror_holds : forall pf ops k c a,
+  pf_rclose pf = true ->
+  let s := fst (rep_run pf rep_init ops) in
+  (poll_r (rep_poll s) = Some true <->
+     snd (rep_ctx_recv pf s k c a true) <> [Complete a E_AGAIN None]) /\
+  (poll_r (rep_poll s) = Some true -> exists p m, snd (rep_ctx_recv pf s k c a true) = [TranRecv p; Complete a E_OK (Some (rep_deliver m))]).
+Proof. exact rep_recv_poll_mirror. Qed.
+Print Assumptions rep_recv_poll_mirror_holds.
+Theorem rep_recv_poll_invariant : forall pf s o,
+  pf_rclose pf = true -> rep_rinv s -> rep_rinv (fst (rep_step pf s o)).
+Proof. exact rep_rinv_step. Qed.
+Print Assumptions rep_recv_poll_invariant.
+(* the send descriptor and a busy reply pipe: pinned rep.c (only ever raised on
+   receive) leaves it raised while another context occupies the socket's reply
+   pipe and a non-blocking reply is refused; repaired: cleared, raised again when
+   the pipe has sent.  PARTIAL for the repaired variant: witness history only (no
+   send-half invariant over all histories is proved in this file) *)
+Theorem rep_send_poll_mirror_refuted :
+  let s := fst (rep_run (mkPfix true true true false) rep_init w_rep_wbusy) in
+  poll_w (rep_poll s) = Some true /\
+  snd (rep_step (mkPfix true true true false) s (PSend None 9%N true (mkPmsg [] [4%N]))) = [Complete 9%N E_AGAIN None].
+Proof. exact rep_send_poll_mirror_refuted_w. Qed.
+Print Assumptions rep_send_poll_mirror_refuted.
+Theorem rep_send_poll_mirror_repaired_partial :
+  let s := fst (rep_run pf_repaired rep_init w_rep_wbusy) in
+  poll_w (rep_poll s) = Some false /\
+  poll_w (rep_poll (fst (rep_step pf_repaired s (PSendDone 1%N 0%N)))) = Some true.
+Proof. exact rep_send_poll_mirror_repaired_w. Qed.
+Print Assumptions rep_send_poll_mirror_repaired_partial.
 
 (* ---- headers (shared with C13) ---- *)
 Theorem xrep_header_push_pop : forall p ttl wire m,
@@ -248,23 +277,23 @@ Proof. exact req_send_recv. Qed.
 Print Assumptions req_id_roundtrip.
 
 (* ---- raw REQ / raw REP: msgq entry points ---- *)
-Theorem xreq_nonblocking_recv_holds : forall r s c a,
-  (mq_get_waits (xq_urq s) = true -> xreq_step (mkMqfix true r) s (PRecv c a true) = (s, [Complete a E_AGAIN None])) /\
+Theorem xreq_nonblocking_recv_holds : forall r g s c a,
+  (mq_get_waits (xq_urq s) = true -> xreq_step (mkMqfix true r g) s (PRecv c a true) = (s, [Complete a E_AGAIN None])) /\
   (mq_get_waits (xq_urq s) = false ->
-     exists s' outs m, xreq_step (mkMqfix true r) s (PRecv c a true) = (s', outs) /\ In (Complete a E_OK (Some m)) outs).
+     exists s' outs m, xreq_step (mkMqfix true r g) s (PRecv c a true) = (s', outs) /\ In (Complete a E_OK (Some m)) outs).
 Proof. exact xreq_nb_recv_repaired. Qed.
 Print Assumptions xreq_nonblocking_recv_holds.
-Theorem xreq_nonblocking_send_holds : forall r s c a m,
-  (mq_put_waits (xq_uwq s) = true -> xreq_step (mkMqfix true r) s (PSend c a true m) = (s, [Complete a E_AGAIN None])) /\
+Theorem xreq_nonblocking_send_holds : forall r g s c a m,
+  (mq_put_waits (xq_uwq s) = true -> xreq_step (mkMqfix true r g) s (PSend c a true m) = (s, [Complete a E_AGAIN None])) /\
   (mq_put_waits (xq_uwq s) = false ->
-     exists s' outs, xreq_step (mkMqfix true r) s (PSend c a true m) = (s', outs) /\ In (Complete a E_OK None) outs).
+     exists s' outs, xreq_step (mkMqfix true r g) s (PSend c a true m) = (s', outs) /\ In (Complete a E_OK None) outs).
 Proof. exact xreq_nb_send_repaired. Qed.
 Print Assumptions xreq_nonblocking_send_holds.
 Theorem xrep_nonblocking_holds :
-  (forall r s c a, (mq_get_waits (xp_urq s) = true -> xrep_step (mkMqfix true r) s (PRecv c a true) = (s, [Complete a E_AGAIN None])) /\
+  (forall r g s c a, (mq_get_waits (xp_urq s) = true -> xrep_step (mkMqfix true r g) s (PRecv c a true) = (s, [Complete a E_AGAIN None])) /\
      (mq_get_waits (xp_urq s) = false ->
-        exists s' outs m, xrep_step (mkMqfix true r) s (PRecv c a true) = (s', outs) /\ In (Complete a E_OK (Some m)) outs)) /\
-  (forall r s c a m, exists s' outs, xrep_step (mkMqfix true r) s (PSend c a true m) = (s', Complete a E_OK None :: outs)).
+        exists s' outs m, xrep_step (mkMqfix true r g) s (PRecv c a true) = (s', outs) /\ In (Complete a E_OK (Some m)) outs)) /\
+  (forall r g s c a m, exists s' outs, xrep_step (mkMqfix true r g) s (PSend c a true m) = (s', Complete a E_OK None :: outs)).
 Proof. split; [exact xrep_nb_recv_repaired|exact xrep_nb_send_repaired]. Qed.
 Print Assumptions xrep_nonblocking_holds.
 Theorem xreq_nonblocking_recv_refuted :     (* pinned msgqueue.c: nni_aio_start first *)
@@ -283,6 +312,22 @@ Theorem xreq_resize_wakes_repaired_partial :   (* PARTIAL: witness history only 
   let s := xreq_run mf_repaired xreq_init w_resize_ops in mq_putq (xq_uwq s) = [] /\ length (mq_q (xq_uwq s)) = 1.
 Proof. exact xreq_resize_repaired_w. Qed.
 Print Assumptions xreq_resize_wakes_repaired_partial.
+(* nni_msgq_aio_get and blocked writers: pinned (reader side only) leaves a writer
+   blocked although the reader made room -- the send descriptor is raised and a
+   non-blocking send is still refused; repaired (writer side run as well) *)
+Theorem xreq_get_runs_putq_refuted :
+  let s := xreq_run (mkMqfix true true false) xreq_init w_getput_ops in
+  mq_putq (xq_uwq s) <> [] /\ length (mq_q (xq_uwq s)) < mq_cap (xq_uwq s) /\
+  poll_w (xreq_poll s) = Some true /\
+  xreq_step (mkMqfix true true false) s (PSend None 9%N true (mkPmsg (be32 2147483651) [7%N])) = (s, [Complete 9%N E_AGAIN None]).
+Proof. exact xreq_get_runs_putq_refuted_w. Qed.
+Print Assumptions xreq_get_runs_putq_refuted.
+Theorem xreq_get_runs_putq_repaired_partial :     (* PARTIAL: witness history only *)
+  let s := xreq_run mf_repaired xreq_init w_getput_ops in
+  mq_putq (xq_uwq s) = [] /\ length (mq_q (xq_uwq s)) = 1 /\
+  In (Complete 2%N E_OK None) (snd (xreq_step mf_repaired (xreq_run mf_repaired xreq_init (firstn 3 w_getput_ops)) (PPipeStart 1%N PROTO_REP))).
+Proof. exact xreq_get_runs_putq_repaired_w. Qed.
+Print Assumptions xreq_get_runs_putq_repaired_partial.
 Theorem xreq_xrep_poll_mirror :
   (forall s, (mq_getq (xq_urq s) = [] -> (poll_r (xreq_poll s) = Some true <-> mq_get_waits (xq_urq s) = false)) /\
              (mq_putq (xq_uwq s) = [] -> (poll_w (xreq_poll s) = Some true <-> mq_put_waits (xq_uwq s) = false))) /\
